@@ -3166,3 +3166,8 @@ def btreemap_ops(ex, m, a, fr, dest):
     if m.group(1) == 'insert':
         return mp.insert(ex, a[1], a[2])
     return mp.find(ex, deref(a[1])) is not None
+
+
+@model(r'(?:std::io::)?(?:stdio::)?(_print|_eprint)')
+def io_print(ex, m, a, fr, dest):
+    return UNIT
